@@ -117,7 +117,7 @@ func errTree(in *script.Interner, e error) interface{} {
 }
 
 type fSpec struct {
-	K string // default | const | eq | is | cause | not | panic | nilfunc
+	K string // default | const | eq | is | cause | not | panic | nilfunc | first
 	B bool
 	S string
 	F *fSpec
@@ -149,8 +149,11 @@ func (f *fSpec) tree(in *script.Interner) interface{} {
 	return []interface{}{f.K}
 }
 
-func (f *fSpec) eval(err error) bool {
+// eval answers the nth (0-based) question asked about one message
+func (f *fSpec) eval(err error, nth int) bool {
 	switch f.K {
+	case "first": // a stateful filter: yes to the first question about a message, no to any later one
+		return nth == 0
 	case "const":
 		return f.B
 	case "eq":
@@ -160,7 +163,7 @@ func (f *fSpec) eval(err error) bool {
 	case "cause":
 		return pkgerrors.Cause(err) == c13Sentinel(f.S)
 	case "not":
-		return !f.F.eval(err)
+		return !f.F.eval(err, nth)
 	case "panic":
 		panic("scripted filter panic")
 	}
@@ -216,6 +219,7 @@ type c13Case struct {
 	produced map[int]*message.Message
 	inPre    bool
 	arrived  bool
+	filterCalls int
 	group    *c13Group
 	// closed when the Router's own Ack()/Nack() call on the consumed message has completed
 	routerDone chan struct{}
@@ -250,6 +254,7 @@ type c13Group struct {
 	rdvN    int
 	rdvCh   chan struct{}
 	timeouts int32
+	batches, batchesMet int // batches of >= 2 messages / those in which the rendezvous was complete
 }
 
 func c13gid() int64 {
@@ -475,11 +480,15 @@ func (g *c13Group) filterFn() func(error) bool {
 	return func(err error) bool {
 		c := g.current("filter")
 		if c == nil {
-			return g.filter.eval(err)
+			return g.filter.eval(err, 0)
 		}
 		c.rec("filter", errTree(g.in, err))
+		c.mu.Lock()
+		nth := c.filterCalls
+		c.filterCalls++
+		c.mu.Unlock()
 		g.arrive(c, true)
-		return g.filter.eval(err)
+		return g.filter.eval(err, nth)
 	}
 }
 
@@ -698,7 +707,7 @@ func (g *c13Group) run(rt *hookrt.Runtime) error {
 	var wrapped [3]message.HandlerFunc
 	runErr := make(chan error, 1)
 	if g.router {
-		router, err = message.NewRouter(message.RouterConfig{CloseTimeout: 5 * time.Second}, watermill.NopLogger{})
+		router, err = message.NewRouter(message.RouterConfig{CloseTimeout: 60 * time.Second}, watermill.NopLogger{})
 		if err != nil {
 			return err
 		}
@@ -727,7 +736,7 @@ func (g *c13Group) run(rt *hookrt.Runtime) error {
 		go func() { runErr <- router.Run(ctx) }()
 		select {
 		case <-router.Running():
-		case <-time.After(5 * time.Second):
+		case <-time.After(60 * time.Second):
 			return errors.New("router did not start")
 		}
 	} else {
@@ -765,14 +774,14 @@ func (g *c13Group) run(rt *hookrt.Runtime) error {
 			go func(c *c13Case) {
 				defer wg.Done()
 				if g.router {
-					if !subs[c.h].Emit(fmt.Sprintf("in%d", c.h), c.msg, 5*time.Second) {
+					if !subs[c.h].Emit(fmt.Sprintf("in%d", c.h), c.msg, 30*time.Second) {
 						c.rec("not-taken")
 						return
 					}
 					// the Router's own settle call ends handleMessage (the handler may have settled earlier)
 					select {
 					case <-c.routerDone:
-					case <-time.After(3 * time.Second):
+					case <-time.After(20 * time.Second): // generous: only a tree that never settles gets here
 					}
 					c.Final = script.Settlement(c.msg)
 					if c.Final == 0 {
@@ -791,6 +800,14 @@ func (g *c13Group) run(rt *hookrt.Runtime) error {
 			}(c)
 		}
 		wg.Wait()
+		if n > 1 {
+			g.mu.Lock()
+			g.batches++
+			if g.rdvN >= n {
+				g.batchesMet++
+			}
+			g.mu.Unlock()
+		}
 	}
 	if g.router {
 		if err := router.Close(); err != nil {
@@ -798,7 +815,7 @@ func (g *c13Group) run(rt *hookrt.Runtime) error {
 		}
 		select {
 		case <-runErr:
-		case <-time.After(5 * time.Second):
+		case <-time.After(60 * time.Second):
 			return errors.New("Run did not return after Close")
 		}
 	}
@@ -820,7 +837,7 @@ var c13Filters = []*fSpec{
 	{K: "default"}, {K: "const", B: true}, {K: "const", B: false},
 	{K: "eq", S: "A"}, {K: "is", S: "A"}, {K: "cause", S: "A"},
 	{K: "not", F: &fSpec{K: "is", S: "A"}}, {K: "not", F: &fSpec{K: "cause", S: "A"}},
-	{K: "panic"}, {K: "nilfunc"},
+	{K: "panic"}, {K: "nilfunc"}, {K: "first"},
 }
 
 var c13Acts = [][][]string{
@@ -937,7 +954,7 @@ func cmdC13(args []string) error {
 	groups := c13Generate(rng, *tier)
 	var all []*c13Case
 	var stray []string
-	timeouts := 0
+	timeouts, batches, batchesMet := 0, 0, 0
 	for _, g := range groups {
 		g.in = in
 		if err := g.run(rt); err != nil {
@@ -946,6 +963,8 @@ func cmdC13(args []string) error {
 		all = append(all, g.cases...)
 		stray = append(stray, g.stray...)
 		timeouts += int(g.timeouts)
+		batches += g.batches
+		batchesMet += g.batchesMet
 	}
 	// the constructors
 	type ctor struct {
@@ -967,7 +986,8 @@ func cmdC13(args []string) error {
 			ctors = append(ctors, ctor{in.ID(t), wf, mw != nil && err == nil, err == nil || errors.Is(err, middleware.ErrInvalidPoisonQueueTopic)})
 		}
 	}
-	return writeJSON(*out, map[string]interface{}{"cases": all, "ctors": ctors, "stray": stray, "timeouts": timeouts, "strings": in.Tab})
+	return writeJSON(*out, map[string]interface{}{"cases": all, "ctors": ctors, "stray": stray, "timeouts": timeouts, "strings": in.Tab,
+		"batches": batches, "batches_met": batchesMet})
 }
 
 func init() { register("c13", cmdC13) }
